@@ -209,7 +209,7 @@ def cases(tier):
             cs.append(c)
     for p in short_family((3, 4)):
         seen.add(p)
-        c = mk(p, 12, 400 if q else 1500, 1, 0)
+        c = mk(p, 12, 600 if q else 1500, 1, 0)
         if c is not None:
             cs.append(c)
     for p in pats + fam:
